@@ -61,6 +61,11 @@ func c19Split(s string) (c19Parts, bool) {
 
 // c19Allowed: the only-if side of the statement. Returns the violated clause ("" when construction is allowed).
 func c19Allowed(issuer string, insecure bool) string {
+	for i := 0; i < len(issuer); i++ {
+		if issuer[i] < 0x20 || issuer[i] == 0x7f {
+			return "constructed-from-a-string-with-control-characters" // no URL contains them (quantifier: control characters)
+		}
+	}
 	p, ok := c19Split(issuer)
 	if !ok {
 		return "constructed-from-a-string-that-is-no-uri"
@@ -232,7 +237,7 @@ func init() { Registry["C19"] = runC19 }
 
 func runC19(ctx Ctx) int {
 	run := ev.NewRun("C19")
-	run.Rule = "A: full product of issuer strings = scheme(10) x separator(5) x userinfo(4) x host(10) x port(5) x path(7) x query(8) x fragment(4) x insecure(2) against the real StaticIssuer factory (and NewProvider for every accepted string), judged by the RFC 3986 appendix-B component regex; B: full product of configured path(10, incl. percent-escapes, //-prefixed and scheme-like paths) x insecure(2) x request Host(3) x 15 Forwarded header shapes x 3 issuer modes x header placement(3) x request path(2) x X-Forwarded-Proto(2), observed on IssuerFromRequest and on the entityID of the served metadata, judged with an own RFC 7239 reading"
+	run.Rule = "A: full product of issuer strings = scheme(10) x separator(5) x userinfo(4) x host(10) x port(5) x path(7) x query(8) x fragment(4) x insecure(2) against the real StaticIssuer factory (and NewProvider for every accepted string), judged by the RFC 3986 appendix-B component regex; A2: every string with <= 1 component off the canonical issuer x 6 prefixes x 9 suffixes of blanks / TAB / LF / CRLF / NBSP / EM SPACE / NUL / VT; B2: every sequence of <= 3 requests over 4 forwarding-header placements on one provider (3 issuer modes); B: full product of configured path(10, incl. percent-escapes, //-prefixed and scheme-like paths) x insecure(2) x request Host(3) x 15 Forwarded header shapes x 3 issuer modes x header placement(3) x request path(2) x X-Forwarded-Proto(2), observed on IssuerFromRequest and on the entityID of the served metadata, judged with an own RFC 7239 reading"
 	run.Assume = []string{"a bare '?' or '#' with nothing after it is not counted as query / fragment", "for syntactically malformed Forwarded values either host choice is accepted; the structure (scheme and path never from the request) is always enforced"}
 	if ctx.Replay != "" {
 		var rp c19Replay
@@ -330,6 +335,129 @@ func runC19(ctx Ctx) int {
 		}
 		mu.Unlock()
 	})
+	// A2: padding around issuer strings. Base = every string with at most one component off the canonical
+	// https://idp.example/saml, x 6 prefixes x 8 suffixes x insecure
+	pads := []string{" ", "\t", "\n", "\r\n", "\u00a0", "\u2003", "\x00", "\x0b"}
+	var bases []string
+	canon := []int{0, 0, 0, 0, 0, 2, 0, 0}
+	compose := func(idx []int) string {
+		var sb strings.Builder
+		for k := 0; k < 8; k++ {
+			sb.WriteString(c19Dims[k][idx[k]])
+		}
+		return sb.String()
+	}
+	bases = append(bases, compose(canon))
+	for k := 0; k < 8; k++ {
+		for v := range c19Dims[k] {
+			if v != canon[k] {
+				idx := append([]int{}, canon...)
+				idx[k] = v
+				bases = append(bases, compose(idx))
+			}
+		}
+	}
+	type padCase struct{ issuer, pre, suf string }
+	var padded []padCase
+	for _, b := range bases {
+		for _, pre := range append([]string{""}, pads[:5]...) {
+			for _, suf := range append([]string{""}, pads...) {
+				if pre != "" || suf != "" {
+					padded = append(padded, padCase{pre + b + suf, pre, suf})
+				}
+			}
+		}
+	}
+	_, c1b := parallel(len(padded), deadline, func(i int) {
+		pc := padded[i]
+		for _, insecure := range []bool{false, true} {
+			ok, clause := c19JudgeStatic(pc.issuer, insecure)
+			run.Evaluations.Add(1)
+			run.AddStates(1)
+			switch {
+			case !ok:
+				run.Outcome("static-padded:rejected")
+			case clause == "":
+				run.Outcome("static-padded:constructed")
+			default:
+				run.Outcome("static-padded:constructed-in-violation")
+				labels := []string{fmt.Sprintf("prefix=%q", pc.pre), fmt.Sprintf("suffix=%q", pc.suf)}
+				if insecure {
+					labels = append(labels, "insecure")
+				}
+				is := pc.issuer
+				run.Violate(clause, "ValidateIssuer", labels, map[string]any{"issuer": pc.issuer, "insecure": insecure}, c19Replay{Issuer: &is, Insecure: insecure})
+			}
+		}
+	})
+	c1 = c1 && c1b
+	// B2: derivation histories on ONE provider: every sequence of <= 3 requests over 4 header placements (none / Forwarded only /
+	// second configured header only / both with different hosts); the issuer of each request depends on that request alone
+	type hstep struct{ f, x string }
+	steps := []hstep{{"", ""}, {"host=fwd-f.example", ""}, {"", "host=fwd-x.example"}, {"host=fwd-f.example", "host=fwd-x.example"}}
+	var seqs [][]int
+	var gen func(p []int)
+	gen = func(p []int) {
+		if len(p) > 0 {
+			seqs = append(seqs, append([]int{}, p...))
+		}
+		if len(p) == 3 {
+			return
+		}
+		for i := range steps {
+			gen(append(p, i))
+		}
+	}
+	gen(nil)
+	type histCase struct {
+		mode string
+		seq  []int
+	}
+	var hcases []histCase
+	for _, mode := range []string{"forwarded", "custom-header", "host"} {
+		for _, sq := range seqs {
+			hcases = append(hcases, histCase{mode, sq})
+		}
+	}
+	_, c2b := parallel(len(hcases), deadline, func(i int) {
+		hc := hcases[i]
+		w, err := world.New(world.Config{IssuerMode: hc.mode, HostPath: "/saml"})
+		if err != nil {
+			run.HarnessError("derivation history: " + err.Error())
+			return
+		}
+		run.Evaluations.Add(1)
+		run.AddStates(1)
+		for n, si := range hc.seq {
+			st := steps[si]
+			r := httptest.NewRequest("GET", "https://req-host.example/x", nil)
+			r.Host = "req-host.example"
+			if st.f != "" {
+				r.Header.Add("Forwarded", st.f)
+			}
+			if st.x != "" {
+				r.Header.Add("X-Zitadel-Forwarded", st.x)
+			}
+			want := "req-host.example"
+			switch {
+			case hc.mode != "host" && st.f != "":
+				want = "fwd-f.example"
+			case hc.mode == "custom-header" && st.x != "":
+				want = "fwd-x.example"
+			}
+			got := w.Provider.IssuerFromRequest(r)
+			if got != "https://"+want+"/saml" {
+				run.Outcome("derive-history:differs")
+				labels := []string{"mode=" + hc.mode, "history"}
+				for _, sj := range hc.seq[:n+1] {
+					labels = append(labels, fmt.Sprintf("step=%d", sj))
+				}
+				run.Violate("derived-issuer-depends-on-earlier-requests", "issuerFromForwardedOrHost", labels, map[string]any{"got": got, "want": "https://" + want + "/saml", "sequence": hc.seq, "placements": "0 none, 1 Forwarded only, 2 X-Zitadel-Forwarded only, 3 both (different hosts)"}, nil)
+				return
+			}
+		}
+		run.Outcome("derive-history:ok")
+	})
 	// B: derivation
 	var dcases []c19DCase
 	for _, path := range []string{"", "/p", "p", "/a/b/", "/t%2Fx/saml", "/my%20idp", "//saml/v2", "idp:saml", "/q?x=1", "/f#frag"} {
@@ -364,7 +492,7 @@ func runC19(ctx Ctx) int {
 	run.Sample(map[string]any{"issuer": "https://idp.example/saml", "insecure": false})
 	run.Sample(map[string]any{"issuer": "hTTps:/u:p@[::1:99999/%zz?a;b#f", "insecure": true})
 	run.Sample(dcases[len(dcases)/2])
-	finishCapped(run, c1 && c2, fmt.Sprintf("A: full product (%d issuer strings x 2); B: %d derivation cases", run.Evaluations.Load()/2, len(dcases)))
+	finishCapped(run, c1 && c2 && c2b, fmt.Sprintf("A: full product (%d issuer strings x 2); B: %d derivation cases", run.Evaluations.Load()/2, len(dcases)))
 	return run.Finish()
 }
 
